@@ -49,6 +49,8 @@ func flatPoints(g orb.Geometry) []orb.Point {
 		for _, m := range v {
 			out = append(out, flatPoints(m)...)
 		}
+	case orb.Bound:
+		out = append(out, v.Min, v.Max)
 	}
 	return out
 }
@@ -232,6 +234,24 @@ func init() {
 					fg = orb.Polygon{orb.Ring(mp[:7]), orb.Ring(mp[7:])}
 				case 3:
 					fg = orb.MultiPolygon{{orb.Ring(mp[:4])}, {orb.Ring(mp[4:8]), orb.Ring(mp[8:])}}
+				case 4:
+					// the kinds that are not slices, and a collection of everything: a single point, the box of the first two
+					// vertices, or point + box + ring + line in one collection
+					// (the rows of the box are taken inside the tile: a corner beyond the clamp latitude comes back changed by
+					// design, and in a box that would move the other corner's row to the other slot)
+					ya, yb := ((pts[0][1]%int(ext))+int(ext))%int(ext), ((pts[1][1]%int(ext))+int(ext))%int(ext)
+					lo := [2]int{minInt(pts[0][0], pts[1][0]), minInt(ya, yb)}
+					hi := [2]int{pts[0][0] + pts[1][0] - lo[0], ya + yb - lo[1]}
+					box := orb.Bound{Min: orb.Point{float64(lo[0]), float64(lo[1])}, Max: orb.Point{float64(hi[0]), float64(hi[1])}}
+					switch c.rng.Intn(3) {
+					case 0:
+						fg, pts = mp[0], pts[:1]
+					case 1:
+						fg, pts = box, [][2]int{lo, hi}
+					default:
+						fg = orb.Collection{mp[2], box, orb.Ring(mp[3:8]), orb.Collection{orb.LineString(mp[8:])}}
+						pts = append([][2]int{pts[2], lo, hi}, pts[3:]...)
+					}
 				}
 				fc := geojson.NewFeatureCollection()
 				// features without a geometry among the others (nothing to project, and no reason to stop projecting)
